@@ -194,13 +194,59 @@ def lastSaved (r : String) : List HOp → Option Src
         | .save r' s => if r' == r then some s else none
         | .clobber _ => none
 
+
+/-! ### "never invented": the labels that may legitimately be present -/
+
+/-- keys of the section of `r` in a file (empty unless the file decodes to a dict with a dict section) -/
+def sectionKeys (r : String) : File B → List Key
+  | .bytes (some (.dict kvs)) =>
+    match aget (.str r) (toDict kvs) with
+    | some (.dict sec) => keys (toDict sec)
+    | _ => []
+  | _ => []
+
+/-- keys of every section of a file -/
+def allSectionKeys : File B → List Key
+  | .bytes (some (.dict kvs)) => (toDict kvs).flatMap (fun kv => match kv.2 with | .dict sec => keys (toDict sec) | _ => [])
+  | _ => []
+
+def srcKeys (src : Src) : List Key := src.map (fun kn => Key.str kn.1)
+
+def showKeys (ks : List Key) : String := if ks.isEmpty then "none" else joinSp (ks.map showKey)
+
+def histAllowed (r : String) : List HOp → List Key
+  | [] => []
+  | .save r' s :: rest => (if r' == r then srcKeys s else []) ++ histAllowed r rest
+  | .clobber f :: rest => sectionKeys r f ++ histAllowed r rest
+
+def prefixKeys (pfx : String) (ks : List Key) : List Key :=
+  ks.filterMap (fun k => match k with | .str l => some (.str (pfx ++ l)) | _ => none)
+
+def parseUrl (w : String) : Option (Option String) :=
+  if w == "-" then some none else (uncps w).map some
+
+/-- Spec oracle, xr round trip: `prefix + label` ↦ the saved record (number, title, target and whatever else
+    `refAttributes` lists; the target with the `url` option prepended).  A label whose target cannot take the
+    option (no string target) is not expected. -/
+def expectXr (pfx : String) (url : Option String) (src : Src) : Val :=
+  .dict (src.filterMap (fun kn =>
+    let rcd := (refAttributes ++ readerSlots.map (·.1)).filterMap (fun name =>
+      (persistVal (getattrSrc kn.2 name)).map (fun v => (Key.str name, v)))
+    match url with
+    | none => some (Key.str (pfx ++ kn.1), .dict rcd)
+    | some u =>
+      match persistVal (getattrSrc kn.2 "url") with
+      | some (.str s) => some (Key.str (pfx ++ kn.1), .dict (rcd.map (fun kv => if kv.1 = Key.str "url" then (kv.1, Val.str (u ++ s)) else kv)))
+      | _ => none))
+
 def handle (ws : List String) : String :=
   match ws with
   | "persist" :: rw :: r => (do
       let rn ← uncps rw
       let (src, r) ← parseSrc r
       let (f, _) ← parseFile r
-      pure (fileStr (persist codec rn src f) ++ "\t" ++ showVal (expectSection src))).getD "bad-request"
+      pure (fileStr (persist codec rn src f) ++ "\t" ++ showVal (expectSection src) ++ "\t" ++
+        showKeys (sectionKeys rn f ++ srcKeys src))).getD "bad-request"
   | "persistasis" :: rw :: r => (do
       let rn ← uncps rw
       let (src, r) ← parseSrc r
@@ -209,7 +255,7 @@ def handle (ws : List String) : String :=
   | "restore" :: rw :: r => (do
       let rn ← uncps rw
       let (f, _) ← parseFile r
-      pure (labelsStr (restore codec rn f []) ++ "\t-")).getD "bad-request"
+      pure (labelsStr (restore codec rn f []) ++ "\ttotal\t" ++ showKeys (sectionKeys rn f))).getD "bad-request"
   | "restoreasis" :: rw :: r => (do
       let rn ← uncps rw
       let (f, _) ← parseFile r
@@ -221,7 +267,8 @@ def handle (ws : List String) : String :=
       let m := match persist codec rn src f with
         | .ok f' => labelsStr (restore codec rn f' [])
         | .error e => errStr e
-      pure (m ++ "\t" ++ (if srcWFb src then showVal (expectLabels src) else "-"))).getD "bad-request"
+      pure (m ++ "\t" ++ (if srcWFb src then showVal (expectLabels src) else "-") ++ "\t" ++
+        showKeys (sectionKeys rn f ++ srcKeys src))).getD "bad-request"
   | "hist" :: rw :: r => (do
       let rn ← uncps rw
       let (f, r) ← parseFile r
@@ -232,7 +279,24 @@ def handle (ws : List String) : String :=
       let s := match lastSaved rn ops with
         | some src => if srcWFb src then showVal (expectLabels src) else "-"
         | none => "-"
-      pure (m ++ "\t" ++ s)).getD "bad-request"
+      pure (m ++ "\t" ++ s ++ "\t" ++ showKeys (sectionKeys rn f ++ histAllowed rn ops))).getD "bad-request"
+  | "xr" :: pw :: uw :: r => (do
+      let pfx ← uncps (pw.drop 1).toString
+      let url ← parseUrl uw
+      let (f, _) ← parseFile r
+      pure ("ok " ++ showVal (.dict (xrLoad codec pfx url f [])) ++ "\ttotal\t" ++
+        showKeys (prefixKeys pfx (allSectionKeys f)))).getD "bad-request"
+  | "xrrt" :: rw :: pw :: uw :: r => (do
+      let rn ← uncps rw
+      let pfx ← uncps (pw.drop 1).toString
+      let url ← parseUrl uw
+      let (src, r) ← parseSrc r
+      let (f, _) ← parseFile r
+      let m := match persist codec rn src f with
+        | .ok f' => "ok " ++ showVal (.dict (xrLoad codec pfx url f' []))
+        | .error e => errStr e
+      pure (m ++ "\t" ++ (if decide ((keys src).Nodup) then showVal (expectXr pfx url src) else "-") ++ "\t" ++
+        showKeys (prefixKeys pfx (allSectionKeys f ++ srcKeys src)))).getD "bad-request"
   | _ => "bad-op"
 
 end PlasVerif.Driver.C20
